@@ -31,6 +31,53 @@ var commonAssumptions = []string{
 }
 
 var plans = map[string]Plan{
+	"C18": {
+		Stages: []Stage{
+			{Harness: "hconc", Config: "default", Quick: 400, Thorough: 20000, QuickSec: 65, ThoroughSec: 1500, MemGB: 10},
+			{Harness: "hconc", Config: "default", Race: true, Quick: 60, Thorough: 2500, QuickSec: 50, ThoroughSec: 1200},
+		},
+		Rule: "one run = 2..6 decode+display jobs (whole fq each: own Interp and simulated OS, shared process-wide registry and package state) drawn with deliberate collisions (same file several times, with and without force, a job hitting EIO/early EOF mid-way next to succeeding ones) from a pool of small corpus samples (one per format), each with one of four display programs whose lazy reads happen in tree-walk order; the jobs run as tasks of one simulation, parked at every disk call and every terminal write (policy drawn per run; most runs coarse, one in four with statement-level pre-emption in the ctx reader); oracle: each fault-free job's stdout, stderr and status are byte-identical to the first lone execution of that job in this worker process, one job is repeated alone afterwards and must still equal it (state left behind by earlier decodes), no panic, no deadlock; race build: the same interleavings under the race detector with a baton that adds no happens-before edge, reports with both accessing frames in fq count; distinct = schedule fingerprint; non-trivial = more context switches than jobs",
+		Real: []string{"the whole of fq per job (interp.New/Main/Stop)", "interp.DefaultRegistry and all package-level state shared by the jobs", "all format decoders the pool needs"},
+		Stub: []string{"operating system per job (simos: disk with short reads / planned faults, terminal)", "scheduler"},
+		Assumptions: append([]string{
+			"a job with an injected disk fault is interference only: what it prints depends on which of its reads the fault hits (fq converts children in Go map order for some programs) and is not compared",
+			"programs are restricted to those whose disk reads happen in tree-walk order so that interleavings replay; Go map iteration inside fq/gojq is the one nondeterminism the simulator does not own",
+			"a job that crashes or hangs all by itself is dropped from the interleaving (C06 reports crashes)",
+		}, commonAssumptions...),
+		ExpectProbes: []string{"jobs", "lone_references", "repeat_checked", "failing_jobs", "faulted_jobs", "disk_short_read"},
+	},
+	"C19": {
+		Stages: []Stage{
+			{Harness: "hnet", Config: "clean", Quick: 12000, Thorough: 1500000, QuickSec: 45, ThoroughSec: 1500, MemGB: 8},
+			{Harness: "hnet", Config: "omission", Quick: 6000, Thorough: 800000, QuickSec: 25, ThoroughSec: 800, MemGB: 8},
+			{Harness: "hnet", Config: "reportonly", Quick: 2000, Thorough: 200000, QuickSec: 10, ThoroughSec: 250, MemGB: 8},
+		},
+		Rule: "one run = a tape-drawn simulated network: 1..5 TCP connections between 2..4 hosts (tape-chosen IPv4 addresses, ports, ISNs incl. near 2^32 and 2^31), each endpoint a minimal TCP (SYN/SYN-ACK/ACK, MSS option, optional timestamps/SACK-permitted/window-scale, tape-chosen segment cuts, send window, immediate or delayed cumulative ACKs, timeout retransmission with backoff and optionally other boundaries, FIN active/passive/never) sending 0..64 KiB per direction (most runs < 2 KiB); a discrete-event network with its own clock: per-packet delay, loss before the tap, loss after the tap, duplication, hold-back reordering by <= 3 packets of the same direction never across a SYN/FIN, a router fragmenting above a tape-chosen MTU (68..1500, neighbouring fragments sometimes swapped, one fragment sometimes lost), a tap that timestamps and (config omission) omits 1..2 data segments or one of their fragments; the capture is written by independent writers as pcap LE/BE/ns or pcapng LE/BE (1..2 interfaces, options, late IDB, NRB/ISB) over Ethernet (with padding), raw IP, SLL, SLL2 or BSD null, and decoded by the real fq (decode.Decode via the registry; one run in 48 the whole CLI on the simulated OS with a jq query and JSON). Oracle: exactly the captured connections in order of first captured packet, client = SYN sender, ip/port right, each direction's stream equal to the bytes sent (clean) or to the bytes before the first byte missing from the capture (omission), skipped_bytes = 0 when nothing is missing and > 0 when the capture holds data beyond the hole, every fragmented datagram whose fragments are all captured listed in .ipv4_reassembled with its addresses, protocol and payload; generator self-check (tagged HARNESS): its own TCP delivers every stream, fragments reassemble to the datagram sent, checksums verify, bounded liveness after the last fault. reportonly (SYN/FIN swaps, data before SYN, displacement <= 8, pcapng stated section length) only counts mismatches. distinct = FNV of the capture bytes; non-trivial = at least one connection carried data",
+		Real: []string{"format/pcap (pcap, pcapng)", "format/inet/flowsdecoder", "gopacket reassembly + ip4defrag", "format/inet (ether8023_frame, sll/sll2/loopback, ipv4_packet, tcp_segment)", "pkg/decode", "pkg/interp + jq + JSON output (1 run in 48)"},
+		Stub: []string{"the network, hosts and TCP endpoints (sim/netsim)", "capture writers (sim/netsim)", "simulated OS for the CLI runs"},
+		Assumptions: append([]string{
+			"IPv4 without IP options; MTU >= 68; retransmissions carry identical content; no RST or keep-alives",
+			"tap omission is judged from what the capture actually holds: an omitted segment that is later retransmitted is not a hole",
+			"has_start/has_end are not checked; reorderings beyond what the statement names are report-only",
+		}, commonAssumptions...),
+		ExpectProbes: []string{"loss_before_tap", "loss_after_tap", "duplicate", "reorder", "fragment", "frag_reorder", "tap_omission", "seq_wrap", "retransmission", "full_cli_runs", "hole_with_later_data", "reassembled_datagrams"},
+	},
+	"C15": {
+		Stages: []Stage{
+			{Harness: "hstore", Config: "intact", Quick: 400, Thorough: 40000, QuickSec: 60, ThoroughSec: 600, MemGB: 8},
+			{Harness: "hstore", Config: "bitrot", Quick: 400, Thorough: 40000, QuickSec: 60, ThoroughSec: 600, MemGB: 8},
+			{Harness: "hstore", Config: "torn", Quick: 300, Thorough: 30000, QuickSec: 50, ThoroughSec: 500, MemGB: 8},
+		},
+		Rule: "one run = one container file (gzip 0..6 members / zip / tar entries, png, gif 1..4 frames, wav) written by a Go standard library writer (hand-written 44-byte WAV header, hand-framed tEXt/zTXt png chunks) from tape-drawn contents (names ascii/unicode/long, payloads empty/incompressible/compressible/>64 KiB, gzip levels and name/comment/extra, zip store/deflate with and without data descriptor, tar USTAR/PAX/GNU, png gray/rgb/rgba/paletted, gif local tables/delays) stored on the simulated disk; fault none / storage crash during the write (file is a prefix cut at a tape-chosen byte) / bit-rot (one tape-chosen byte altered, 3 of 4 inside a checksummed region or a stored checksum); the whole of fq (interp.Main, -d FORMAT, one jq query printing JSON) reads it back; oracle intact: names, sizes, header fields, payload bytes (IDAT inflated and unfiltered to the pixels, GIF data un-LZW'd) equal what the writer was given and every stored checksum is marked valid; under a fault never a clean wrong result: per member reported == stored, or its checksum shown invalid, or an error / non-zero exit / member absent; a member lying completely in front of the cut must be right even when a later error is reported; uncovered header fields are not compared under bit-rot; distinct = fingerprint of file bytes + fault + output; non-trivial = at least one member",
+		Real: []string{"the whole of fq (pkg/interp, pkg/decode)", "format/gzip, zip, tar, png, gif, riff(wav), flate, crc"},
+		Stub: []string{"writer nodes: compress/gzip, archive/zip, archive/tar, image/png, image/gif, hand-written wav (sim/store)", "disk (simos, no read faults)"},
+		Assumptions: append([]string{
+			"gzip member names are generated ASCII only (fq reads them as UTF-8, RFC 1952 says Latin-1)",
+			"a tRNS chunk shown undecoded after a corrupted (and marked invalid) IHDR is accepted: how tRNS is read depends on IHDR",
+			"whether a torn member lies in front of the cut is decided from the writer's offsets, not from fq's ranges",
+		}, commonAssumptions...),
+		ExpectProbes: []string{"gzip_multi_member", "zip_deflate_descriptor", "zip_store_sized", "tar_name_from_pax", "png_multi_idat", "png_ztxt_inflated", "gif_multi_frame", "bitrot_in_checksummed_region", "bitrot_in_stored_checksum", "torn_write"},
+	},
 	"C05": {
 		Stages: []Stage{
 			{Harness: "hbits", Config: "benign", Quick: 1200, Thorough: 60000, QuickSec: 70, ThoroughSec: 1200, MemGB: 8},
